@@ -510,6 +510,7 @@ impl World for FwdWorld {
                 "rules_evaluated is not judged".into(),
                 "timeout is None (wall-clock timeout disabled)".into(),
             ],
+            hang_is_a_verdict: true,
             required_probes: vec![
                 "fault.clock_set_backward",
                 "fault.clock_tick_on_read",
